@@ -216,7 +216,7 @@ func compareLoadOption(lo *device.EFILoadOption, o refdev.LoadOption, pathLen ui
 }
 
 func checkC18(r *mon.Run) {
-	r.Rule = "boot numbers: all 65536, in in-memory stores whose BootOrder holds 0,1,2,255,4096 shuffled entries and whose Boot#### variables are named by the reference (4 upper-case hex digits), through the object API and the legacy efi.GetBootOrder/GetBootEntry; the captured tests/data/boot* variables; load options: 1..6 nodes of PCI/ACPI/HD(MBR,GPT)/file-path/firmware-file/USB + end node with arbitrary field values, descriptions incl. empty and non-BMP, optional data; decoded fields vs the independent encoder, HD/File Format() vs the UEFI text form. distinct = boot numbers + distinct node-kind sequences"
+	r.Rule = "boot numbers: all 65536, in in-memory stores whose BootOrder holds 0,1,2,255,4096 shuffled entries and whose Boot#### variables are named by the reference (4 upper-case hex digits), through the object API and the legacy efi.GetBootOrder/GetBootEntry; the captured tests/data/boot* variables; load options: 1..6 nodes of PCI/ACPI/HD(MBR,GPT)/file-path/firmware-file/USB + end node with arbitrary field values, descriptions incl. empty and non-BMP, optional data; decoded fields vs the independent encoder, device paths also through readers positioned inside a larger record and node by node through the exported per-type parsers, HD/File Format() vs the UEFI text form. distinct = boot numbers + distinct node-kind sequences"
 	r.Assume("text form per UEFI §10.6.1.6 / edk2: HD(part,GPT,<EFI GUID>,0xstart,0xsize), HD(part,MBR,0x%08x,0xstart,0xsize); File(<path>) as the repository's own test expects; generated HD nodes keep format and signature type consistent and partition >= 1")
 	useFakeEfivarsDir()
 
